@@ -96,6 +96,20 @@ func runC19(c *Ctx, withTxs bool) {
 		sc.slowHandler = t.Bool(2, 3)
 		tr = newTxRun(c, sc, ns)
 		summary = sc.String()
+		if t.Bool(1, 4) {
+			// an outage of the external output service: the node gives up on that transaction or
+			// block (and may stop itself); Stop must still return and the stores must still be saved
+			c.FaultConfigured("F-fetch-fail")
+			budget := 1 + int(t.Choose(2))
+			ns.TxW.FetchFail = func() bool {
+				if budget > 0 && t.Bool(1, 3) {
+					budget--
+					c.FaultFired("F-fetch-fail")
+					return true
+				}
+				return false
+			}
+		}
 	} else {
 		sc := genChainScenario(c, true)
 		delete(sc.faults, "restart")
